@@ -15,10 +15,17 @@ from vlib.core import BuildLock
 
 PROP = "C09"
 PINS = {
-    "C09_introdb_no_panic": "forall s e ch site, ireachable s -> ilegal s e -> istep s e ch <> IPanic site",
     "C09_introdb_invariant": "forall s, ireachable s -> idb_inv s",
-    "C09_introdb_release": "istep s e ch = IDone (s', o) -> idb_no_ref c s'",
+    "C09_introdb_no_panic": "forall s e ch site, ireachable s -> ilegal s e -> istep s e ch <> IPanic site",
+    "C09_introdb_release": "ireachable s -> e = IConnShutdown c \\/ e = IShutdownConn c -> istep s e ch = IDone (s', o) -> "
+                           "idb_no_ref c s'",
     "C09_introdb_empty": "forall s, ireachable s -> i_conns s = ∅ -> i_entries s = ∅ /\\ i_qmap s = ∅",
+    "C09_introdb_query_answered": "i_conns s' !! r = Some ci -> ci_alive ci = true -> (forall sr, e <> IReplyMsg r sr None) -> "
+                                  "pend_of s' r ⊎ replies_to r o = pend_of s r ⊎ asked e r",
+    "C09_introdb_outputs_connected": "forall c x, (c, x) ∈ o -> exists ci, i_conns s !! c = Some ci /\\ ci_alive ci = true",
+    "C09_introdb_fuel": "ireachable s -> ilegal s e -> istep s e ch <> IHalt NoFuel",
+    "C09_introdb_idle": "forall s, iexits s = true <-> i_idle s = true /\\ i_conns s = ∅",
+    "C09_introdb_seeded_guard_panics": "entry_remove_conn_g guard_seeded seeded_e1 3%N = IPanic 101%N",
 }
 
 # introdb: (shards, histories per shard, max steps); rounds of IDB_ROUND histories per harness invocation
